@@ -19,6 +19,7 @@ fn main() {
         "c07" => checks::c07::main(&a),
         "c08" => checks::c08::main(&a),
         "c10" => checks::c10::main(&a),
+        "c11" => checks::c11::main(&a),
         "c12" => checks::c12::main(&a),
         "c13" => checks::c13::main(&a),
         "c20" => checks::c20::main(&a),
